@@ -196,3 +196,463 @@ pub proof fn lemma_kv_fold_region(t: Seq<Seq<u8>>, a0: int, a: int, keys: Seq<ti
         assert(kv_toks(keys, m).len() == pre.len() + 1 + vals.len());
     }
 }
+
+// ---- the three extension bodies ---------------------------------------------------------------------------------------
+pub open spec fn tok_t() -> Seq<u8> { seq![0x74u8] }
+pub open spec fn tok_u() -> Seq<u8> { seq![0x75u8] }
+pub open spec fn tok_x() -> Seq<u8> { seq![0x78u8] }
+pub open spec fn kv_empty() -> KvMap { Map::<tinystr::TinyAsciiStr<4>, Seq<Seq<u8>>>::empty() }
+pub open spec fn uv_empty(uv: UView) -> bool { uv.attrs.len() == 0 && uv.kw == kv_empty() }
+pub open spec fn tv_empty(tv: TView) -> bool { !tv.has_lang && tv.fields == kv_empty() }
+pub open spec fn x_view_wf(xv: Seq<Seq<u8>>) -> bool {
+    weakly_sorted(xv) && forall|i: int| 0 <= i < xv.len() ==> is_private(#[trigger] xv[i]) && lower(xv[i]) == xv[i]
+}
+pub open spec fn t_view_ok(tv: TView) -> bool { t_wf(tv) && (tv.has_lang ==> lid_view_ok(tv.lang)) }
+pub open spec fn x_toks(xv: Seq<Seq<u8>>) -> Seq<Seq<u8>> { if xv.len() == 0 { Seq::empty() } else { seq![tok_x()] + xv } }
+pub open spec fn u_body(uv: UView, ku: Seq<tinystr::TinyAsciiStr<4>>) -> Seq<Seq<u8>> { uv.attrs + kv_toks(ku, uv.kw) }
+pub open spec fn u_toks(uv: UView, ku: Seq<tinystr::TinyAsciiStr<4>>) -> Seq<Seq<u8>> { if uv_empty(uv) { Seq::empty() } else { seq![tok_u()] + u_body(uv, ku) } }
+pub open spec fn t_body(tv: TView, kt: Seq<tinystr::TinyAsciiStr<4>>) -> Seq<Seq<u8>> {
+    (if tv.has_lang { lid_toks(tv.lang) } else { Seq::<Seq<u8>>::empty() }) + kv_toks(kt, tv.fields)
+}
+pub open spec fn t_toks(tv: TView, kt: Seq<tinystr::TinyAsciiStr<4>>) -> Seq<Seq<u8>> { if tv_empty(tv) { Seq::empty() } else { seq![tok_t()] + t_body(tv, kt) } }
+/// a sequence that is empty or starts with a one-byte subtag (the next singleton)
+pub open spec fn starts_singleton(r: Seq<Seq<u8>>) -> bool { r.len() == 0 || r[0].len() == 1 }
+
+pub proof fn lemma_keys_ok_from_wf(keys: Seq<tinystr::TinyAsciiStr<4>>, m: KvMap, mode: bool)
+    requires is_sorted_keys(keys, m), kv_wf(m, mode),
+    ensures kv_keys_ok(keys, m, mode), kv_restrict(keys, m) == m, (keys.len() == 0) == (m == kv_empty()),
+{
+    assert forall|i: int| 0 <= i < keys.len() implies m.contains_key(#[trigger] keys[i])
+        && (if mode { is_ukey(text(keys[i])) } else { is_tkey(text(keys[i])) }) && lower(text(keys[i])) == text(keys[i]) && vals_wf(m[keys[i]]) by {
+        assert(keys.contains(keys[i]));
+        let k = keys[i];
+        assert forall|j: int| 0 <= j < m[k].len() implies is_utype(#[trigger] m[k][j]) && lower(m[k][j]) == m[k][j] && m[k][j] != true_word() by {}
+    }
+    assert(kv_restrict(keys, m) =~= m) by {
+        assert forall|k: tinystr::TinyAsciiStr<4>| keys.to_set().contains(k) <==> m.contains_key(k) by { assert(keys.to_set().contains(k) <==> keys.contains(k)); }
+    }
+    if keys.len() == 0 { assert(m =~= kv_empty()) by { assert forall|k: tinystr::TinyAsciiStr<4>| !m.contains_key(k) by { assert(!keys.contains(k)); } } }
+    else { assert(keys.contains(keys[0])); assert(m.contains_key(keys[0])); }
+}
+
+pub proof fn lemma_ext_x(xv: Seq<Seq<u8>>, ev: EView)
+    requires x_view_wf(xv),
+    ensures
+        xv.len() == 0 ==> ext_parse(x_toks(xv), ev) == ERes::Ok(ev),
+        xv.len() > 0 ==> ext_parse(x_toks(xv), ev) == ERes::Ok(EView { x: Some(xv), ..ev }),
+        x_expected(xv, xv),
+{
+    assert(lowered_run(xv, 0, xv.len() as int) =~= xv);
+    if xv.len() > 0 {
+        let t = x_toks(xv);
+        assert(t[0] == tok_x());
+        assert(singleton(t[0]) == Sing::X);
+        assert(t.skip(1) =~= xv);
+    }
+}
+
+pub proof fn lemma_u_first_key_none(t: Seq<Seq<u8>>, e: int)
+    requires 0 <= e <= t.len(), forall|i: int| 0 <= i < e ==> (#[trigger] t[i]).len() != 2,
+    ensures u_first_key(t, 0, e) == e,
+    decreases e,
+{
+    if e > 0 { lemma_u_first_key_none(t, e - 1); }
+}
+pub proof fn lemma_u_first_key(t: Seq<Seq<u8>>, n: int, e: int)
+    requires 0 <= n <= e <= t.len(), forall|i: int| 0 <= i < n ==> (#[trigger] t[i]).len() != 2, n == e || t[n].len() == 2,
+    ensures u_first_key(t, 0, e) == n,
+    decreases e - n,
+{
+    if n == e { lemma_u_first_key_none(t, e); }
+    else if n == e - 1 { lemma_u_first_key_none(t, e - 1); }
+    else { lemma_u_first_key(t, n, e - 1); }
+}
+
+pub proof fn lemma_ext_u(uv: UView, ku: Seq<tinystr::TinyAsciiStr<4>>, xv: Seq<Seq<u8>>, ev: EView)
+    requires u_wf(uv), is_sorted_keys(ku, uv.kw), !uv_empty(uv), x_view_wf(xv), ev.u is None,
+    ensures
+        ext_parse(u_toks(uv, ku) + x_toks(xv), ev) == ext_parse(x_toks(xv), EView { u: Some(u_body(uv, ku) + x_toks(xv)), ..ev }),
+        u_expected(u_body(uv, ku) + x_toks(xv), 0, u_end(u_body(uv, ku) + x_toks(xv), 0), uv),
+{
+    let kv = kv_toks(ku, uv.kw);
+    let ub = u_body(uv, ku);
+    let body = ub + x_toks(xv);
+    let t = u_toks(uv, ku) + x_toks(xv);
+    let na = uv.attrs.len() as int;
+    let n = ub.len() as int;
+    lemma_keys_ok_from_wf(ku, uv.kw, true);
+    assert(t[0] == tok_u());
+    assert(singleton(t[0]) == Sing::U);
+    assert(t.skip(1) =~= body);
+    assert forall|i: int| 0 <= i < na implies #[trigger] body[i] == uv.attrs[i] by {}
+    assert forall|i: int| 0 <= i < kv.len() implies #[trigger] body[na + i] == kv[i] by {}
+    assert forall|i: int| 0 <= i < n implies u_shaped(#[trigger] body[i]) && (body[i].len() == 2 ==> is_ukey(body[i])) && (i < na ==> body[i].len() != 2) by {
+        if i < na { assert(body[i] == uv.attrs[i]); assert(is_utype(uv.attrs[i])); }
+        else { assert(body[na + (i - na)] == kv[i - na]); lemma_kv_toks_shape(ku, uv.kw, true, i - na); }
+    }
+    if n < body.len() {
+        assert(body[n] == x_toks(xv)[0]);
+        assert(body[n] == tok_x());
+        assert(!u_shaped(body[n]));
+    }
+    lemma_u_end(body, 0, n);
+    assert(u_keys_ok(body, 0, n));
+    assert(body.skip(n) =~= x_toks(xv));
+    // expected value
+    if kv.len() > 0 { lemma_kv_toks_shape(ku, uv.kw, true, 0); lemma_kv_toks_len(ku, uv.kw); assert(body[na + 0] == kv[0]); assert(body[na].len() == 2); }
+    else { lemma_kv_toks_len(ku, uv.kw); }
+    if kv.len() == 0 { assert(na == n); }
+    lemma_u_first_key(body, na, n);
+    assert forall|x: Seq<u8>| uv.attrs.contains(x) <==> (exists|i: int| 0 <= i < u_first_key(body, 0, n) && x == lower(#[trigger] body[i])) by {
+        if uv.attrs.contains(x) {
+            let i = choose|i: int| 0 <= i < uv.attrs.len() && uv.attrs[i] == x;
+            assert(body[i] == x && lower(body[i]) == x);
+        }
+        if exists|i: int| 0 <= i < na && x == lower(#[trigger] body[i]) {
+            let i = choose|i: int| 0 <= i < na && x == lower(#[trigger] body[i]);
+            assert(body[i] == uv.attrs[i]);
+            assert(uv.attrs[i] == x);
+        }
+    }
+    assert forall|i: int| 0 <= i < na implies !is_key(true, #[trigger] body[i]) by {}
+    lemma_kv_fold_region(body, 0, na, ku, uv.kw, true);
+    assert(na + kv.len() == n);
+}
+
+pub proof fn lemma_tkey_is_stopper(s: Seq<u8>)
+    requires is_tkey(s) || s.len() == 1,
+    ensures lid_stopper(s), !lang_shaped(s),
+{
+    if is_tkey(s) { assert(digit(s[1])); assert(!alpha(s[1])); }
+    if s.len() == 1 && is_region(s) { }
+}
+
+pub proof fn lemma_ext_t(tv: TView, kt: Seq<tinystr::TinyAsciiStr<4>>, rest: Seq<Seq<u8>>, ev: EView)
+    requires t_view_ok(tv), is_sorted_keys(kt, tv.fields), !tv_empty(tv), starts_singleton(rest), ev.t is None,
+    ensures
+        ext_parse(t_toks(tv, kt) + rest, ev) == ext_parse(rest, EView { t: Some(t_body(tv, kt) + rest), ..ev }),
+        t_expected(t_body(tv, kt) + rest, tv),
+{
+    let kv = kv_toks(kt, tv.fields);
+    let lt = if tv.has_lang { lid_toks(tv.lang) } else { Seq::<Seq<u8>>::empty() };
+    let tb = t_body(tv, kt);
+    let body = tb + rest;
+    let t = t_toks(tv, kt) + rest;
+    let f0 = lt.len() as int;
+    let n = tb.len() as int;
+    lemma_keys_ok_from_wf(kt, tv.fields, false);
+    lemma_kv_toks_len(kt, tv.fields);
+    assert(t[0] == tok_t());
+    assert(singleton(t[0]) == Sing::T);
+    assert(t.skip(1) =~= body);
+    assert(body =~= lt + (kv + rest));
+    assert forall|i: int| 0 <= i < kv.len() implies #[trigger] body[f0 + i] == kv[i] by {}
+    if n < body.len() { assert(body[n] == rest[0]); }
+    // the first subtag after the tlang cannot continue a language identifier
+    let after = kv + rest;
+    if after.len() > 0 {
+        if kv.len() > 0 { lemma_kv_toks_shape(kt, tv.fields, false, 0); assert(after[0] == kv[0]); lemma_tkey_is_stopper(after[0]); }
+        else { assert(after[0] == rest[0]); lemma_tkey_is_stopper(after[0]); }
+    }
+    if tv.has_lang {
+        lemma_lid_roundtrip_suffix(tv.lang, after);
+        assert(is_language(body[0]));
+        assert(lang_shaped(body[0]));
+        assert(t_f0(body) == f0);
+    } else {
+        assert(kt.len() > 0);
+        lemma_kv_toks_shape(kt, tv.fields, false, 0);
+        assert(body[0] == kv[0]);
+        lemma_tkey_is_stopper(body[0]);
+        assert(!t_has_lang(body));
+        assert(t_f0(body) == 0);
+    }
+    // the field region
+    assert forall|i: int| f0 <= i < n implies (#[trigger] body[i]).len() != 1 && (is_tkey(body[i]) || is_utype(body[i])) by {
+        assert(body[f0 + (i - f0)] == kv[i - f0]);
+        lemma_kv_toks_shape(kt, tv.fields, false, i - f0);
+    }
+    lemma_tf_end(body, f0, n);
+    if kv.len() > 0 {
+        lemma_kv_toks_shape(kt, tv.fields, false, 0);
+        assert(body[f0 + 0] == kv[0]);
+        assert(t_has_fields(body));
+    } else {
+        assert(n == f0);
+        if f0 < body.len() { assert(body[f0] == rest[0]); assert(!is_tkey(body[f0])); }
+        assert(!t_has_fields(body));
+    }
+    assert(t_end(body) == n);
+    if f0 < body.len() { lemma_tkey_is_stopper(body[f0]); }
+    assert(!t_err(body));
+    assert(body.skip(n) =~= rest);
+    lemma_kv_fold_region(body, f0, f0, kt, tv.fields, false);
+    assert(f0 + kv.len() == n);
+}
+
+/// L-RT for the extension part: the recogniser accepts the subtags of the canonical extension string and prescribes the
+/// three views again (t before u before x, each absent when empty)
+pub proof fn lemma_ext_roundtrip(tv: TView, kt: Seq<tinystr::TinyAsciiStr<4>>, uv: UView, ku: Seq<tinystr::TinyAsciiStr<4>>, xv: Seq<Seq<u8>>)
+    requires t_view_ok(tv), is_sorted_keys(kt, tv.fields), u_wf(uv), is_sorted_keys(ku, uv.kw), x_view_wf(xv),
+    ensures
+        ext_parse(t_toks(tv, kt) + (u_toks(uv, ku) + x_toks(xv)), ev0()) == ERes::Ok(EView {
+            t: if tv_empty(tv) { None } else { Some(t_body(tv, kt) + (u_toks(uv, ku) + x_toks(xv))) },
+            u: if uv_empty(uv) { None } else { Some(u_body(uv, ku) + x_toks(xv)) },
+            x: if xv.len() == 0 { None } else { Some(xv) } }),
+        !tv_empty(tv) ==> t_expected(t_body(tv, kt) + (u_toks(uv, ku) + x_toks(xv)), tv),
+        !uv_empty(uv) ==> u_expected(u_body(uv, ku) + x_toks(xv), 0, u_end(u_body(uv, ku) + x_toks(xv), 0), uv),
+        x_expected(xv, xv),
+{
+    let rest = u_toks(uv, ku) + x_toks(xv);
+    assert(starts_singleton(rest)) by {
+        if !uv_empty(uv) { assert(rest[0] == tok_u()); }
+        else if xv.len() > 0 { assert(rest =~= x_toks(xv)); assert(rest[0] == tok_x()); }
+        else { assert(rest =~= Seq::<Seq<u8>>::empty()); }
+    }
+    let ev1 = if tv_empty(tv) { ev0() } else { EView { t: Some(t_body(tv, kt) + rest), ..ev0() } };
+    if !tv_empty(tv) { lemma_ext_t(tv, kt, rest, ev0()); } else { assert(t_toks(tv, kt) + rest =~= rest); }
+    assert(ext_parse(t_toks(tv, kt) + rest, ev0()) == ext_parse(rest, ev1));
+    let ev2 = if uv_empty(uv) { ev1 } else { EView { u: Some(u_body(uv, ku) + x_toks(xv)), ..ev1 } };
+    if !uv_empty(uv) { lemma_ext_u(uv, ku, xv, ev1); } else { assert(rest =~= x_toks(xv)); }
+    assert(ext_parse(rest, ev1) == ext_parse(x_toks(xv), ev2));
+    lemma_ext_x(xv, ev2);
+}
+
+/// reachability witness for the preconditions above (vacuity guard): the views of "-u-foo-x-a" satisfy them and the
+/// conclusion says what it should for them
+pub proof fn lemma_ext_roundtrip_witness()
+    ensures ({
+        let foo = seq![0x66u8, 0x6fu8, 0x6fu8];
+        let a = seq![0x61u8];
+        ext_parse(seq![tok_u(), foo, tok_x(), a], ev0()) == ERes::Ok(EView { t: None, u: Some(seq![foo, tok_x(), a]), x: Some(seq![a]) })
+    }),
+{
+    let foo = seq![0x66u8, 0x6fu8, 0x6fu8];
+    let a = seq![0x61u8];
+    let uv = UView { attrs: seq![foo], kw: kv_empty() };
+    let tv = TView { has_lang: false, lang: arbitrary(), fields: kv_empty() };
+    let xv = seq![a];
+    let ke = Seq::<tinystr::TinyAsciiStr<4>>::empty();
+    assert(alnum(0x66u8) && alnum(0x6fu8) && alnum(0x61u8));
+    assert(is_utype(foo)) by { assert forall|i: int| 0 <= i < foo.len() implies alnum(#[trigger] foo[i]) by {} }
+    assert(lower(foo) =~= foo);
+    assert(is_private(a)) by { assert forall|i: int| 0 <= i < a.len() implies alnum(#[trigger] a[i]) by {} }
+    assert(lower(a) =~= a);
+    lemma_lex_le_refl(a);
+    assert(x_view_wf(xv));
+    assert(u_wf(uv));
+    assert(texts::<4>(ke) =~= Seq::<Seq<u8>>::empty());
+    assert(is_sorted_keys(ke, kv_empty()));
+    lemma_ext_roundtrip(tv, ke, uv, ke, xv);
+    assert(kv_toks(ke, kv_empty()) =~= Seq::<Seq<u8>>::empty());
+    assert(t_toks(tv, ke) + (u_toks(uv, ke) + x_toks(xv)) =~= seq![tok_u(), foo, tok_x(), a]);
+    assert(u_body(uv, ke) + x_toks(xv) =~= seq![foo, tok_x(), a]);
+}
+
+// ---- uniqueness of the prescribed values ---------------------------------------------------------------------------------
+pub open spec fn lexf() -> spec_fn(Seq<u8>, Seq<u8>) -> bool { |a: Seq<u8>, b: Seq<u8>| lex_le(a, b) }
+/// two weakly sorted sequences with the same multiset of elements are equal
+pub proof fn lemma_weak_sorted_unique(v: Seq<Seq<u8>>, w: Seq<Seq<u8>>)
+    requires weakly_sorted(v), weakly_sorted(w), v.to_multiset() == w.to_multiset(),
+    ensures v == w,
+{
+    let leq = lexf();
+    assert(vstd::relations::total_ordering(leq)) by {
+        assert forall|a: Seq<u8>| #[trigger] leq(a, a) by { lemma_lex_le_refl(a); }
+        assert forall|a: Seq<u8>, b: Seq<u8>| #[trigger] leq(a, b) && #[trigger] leq(b, a) implies a == b by { lemma_lex_le_antisym(a, b); }
+        assert forall|a: Seq<u8>, b: Seq<u8>, c: Seq<u8>| #[trigger] leq(a, b) && #[trigger] leq(b, c) implies leq(a, c) by { lemma_lex_le_trans(a, b, c); }
+        assert forall|a: Seq<u8>, b: Seq<u8>| #[trigger] leq(a, b) || #[trigger] leq(b, a) by { lemma_lex_le_total(a, b); }
+    }
+    assert(vstd::relations::sorted_by(v, leq)) by { assert forall|i: int, j: int| 0 <= i < j < v.len() implies #[trigger] leq(v[i], v[j]) by { assert(lex_le(v[i], v[j])); } }
+    assert(vstd::relations::sorted_by(w, leq)) by { assert forall|i: int, j: int| 0 <= i < j < w.len() implies #[trigger] leq(w[i], w[j]) by { assert(lex_le(w[i], w[j])); } }
+    vstd::seq_lib::lemma_sorted_unique(v, w, leq);
+}
+pub proof fn lemma_x_expected_unique(b: Seq<Seq<u8>>, v: Seq<Seq<u8>>, w: Seq<Seq<u8>>)
+    requires x_expected(b, v), x_expected(b, w),
+    ensures v == w,
+{ lemma_weak_sorted_unique(v, w); }
+pub proof fn lemma_u_expected_unique(b: Seq<Seq<u8>>, a: int, e: int, v: UView, w: UView)
+    requires u_expected(b, a, e, v), u_expected(b, a, e, w),
+    ensures v == w,
+{
+    assert forall|x: Seq<u8>| v.attrs.contains(x) <==> w.attrs.contains(x) by {
+        assert(v.attrs.contains(x) <==> (exists|i: int| a <= i < u_first_key(b, a, e) && x == lower(#[trigger] b[i])));
+        assert(w.attrs.contains(x) <==> (exists|i: int| a <= i < u_first_key(b, a, e) && x == lower(#[trigger] b[i])));
+    }
+    lemma_strict_sorted_same_set(v.attrs, w.attrs);
+}
+pub proof fn lemma_t_expected_unique(b: Seq<Seq<u8>>, v: TView, w: TView)
+    requires t_expected(b, v), t_expected(b, w), !v.has_lang ==> v.lang == w.lang,
+    ensures v == w,
+{
+    if v.has_lang { lemma_lid_expected_unique(b, v.lang, w.lang); }
+}
+
+// ---- the canonical extension string is the dash-join of e_toks ------------------------------------------------------------
+pub open spec fn e_toks(tv: TView, kt: Seq<tinystr::TinyAsciiStr<4>>, uv: UView, ku: Seq<tinystr::TinyAsciiStr<4>>, xv: Seq<Seq<u8>>) -> Seq<Seq<u8>> {
+    t_toks(tv, kt) + (u_toks(uv, ku) + x_toks(xv))
+}
+pub proof fn lemma_dash_lid_ser(v: LidView)
+    ensures dash() + lid_ser(v) == dash_join(lid_toks(v)),
+{
+    lemma_lid_ser_is_join(v);
+    let rest = opt_seq(v.script) + opt_seq(v.region) + v.variants;
+    lemma_dash_join_front(lang_text(v.lang), rest);
+    assert(dash() + lid_ser(v) =~= dash() + lang_text(v.lang) + dash_join(rest));
+}
+pub proof fn lemma_e_ser_join(tv: TView, uv: UView, xv: Seq<Seq<u8>>)
+    ensures t_ser(tv) + u_ser(uv) + x_ser(xv) == dash_join(e_toks(tv, sorted_keys(tv.fields), uv, sorted_keys(uv.kw), xv)),
+{
+    let kt = sorted_keys(tv.fields);
+    let ku = sorted_keys(uv.kw);
+    let e = Seq::<u8>::empty();
+    assert(dash_join(Seq::<Seq<u8>>::empty()) =~= e);
+    // x
+    assert(x_ser(xv) == dash_join(x_toks(xv))) by {
+        if xv.len() > 0 { lemma_dash_join_one(tok_x()); lemma_dash_join_concat(seq![tok_x()], xv); assert(lit_x() =~= dash() + tok_x()); }
+    }
+    // u
+    assert(u_ser(uv) == dash_join(u_toks(uv, ku))) by {
+        if !uv_empty(uv) {
+            lemma_kv_ser_join(ku, uv.kw);
+            lemma_dash_join_one(tok_u());
+            lemma_dash_join_concat(uv.attrs, kv_toks(ku, uv.kw));
+            lemma_dash_join_concat(seq![tok_u()], u_body(uv, ku));
+            assert(lit_u() =~= dash() + tok_u());
+            assert(u_ser(uv) =~= dash_join(u_toks(uv, ku)));
+        }
+    }
+    // t
+    assert(t_ser(tv) == dash_join(t_toks(tv, kt))) by {
+        if !tv_empty(tv) {
+            lemma_kv_ser_join(kt, tv.fields);
+            lemma_dash_join_one(tok_t());
+            let lt = if tv.has_lang { lid_toks(tv.lang) } else { Seq::<Seq<u8>>::empty() };
+            if tv.has_lang { lemma_dash_lid_ser(tv.lang); }
+            lemma_dash_join_concat(lt, kv_toks(kt, tv.fields));
+            lemma_dash_join_concat(seq![tok_t()], t_body(tv, kt));
+            assert(lit_t() =~= dash() + tok_t());
+            assert(t_ser(tv) =~= dash_join(t_toks(tv, kt)));
+        }
+    }
+    lemma_dash_join_concat(u_toks(uv, ku), x_toks(xv));
+    lemma_dash_join_concat(t_toks(tv, kt), u_toks(uv, ku) + x_toks(xv));
+    assert(t_ser(tv) + u_ser(uv) + x_ser(xv) =~= dash_join(t_toks(tv, kt)) + (dash_join(u_toks(uv, ku)) + dash_join(x_toks(xv))));
+}
+
+// ---- the whole locale string --------------------------------------------------------------------------------------------
+pub proof fn lemma_kv_toks_alnum(keys: Seq<tinystr::TinyAsciiStr<4>>, m: KvMap, mode: bool, i: int)
+    requires kv_keys_ok(keys, m, mode), 0 <= i < kv_toks(keys, m).len(),
+    ensures all_alnum(kv_toks(keys, m)[i]),
+{
+    lemma_kv_toks_shape(keys, m, mode, i);
+    let x = kv_toks(keys, m)[i];
+    if x.len() == 2 && (is_ukey(x) || is_tkey(x)) {
+        assert forall|j: int| 0 <= j < x.len() implies alnum(#[trigger] x[j]) by { if j == 0 { assert(alnum(x[0])); } else { assert(j == 1); assert(alnum(x[1])); } }
+    }
+}
+pub proof fn lemma_lid_toks_alnum(v: LidView, i: int)
+    requires lid_view_ok(v), 0 <= i < lid_toks(v).len(),
+    ensures all_alnum(lid_toks(v)[i]),
+{
+    lemma_und_props();
+    let t = lid_toks(v);
+    let ns: int = if v.script is Some { 1 } else { 0 };
+    let nr: int = if v.region is Some { 1 } else { 0 };
+    if i == 0 { assert(t[0] == lang_text(v.lang)); lemma_alpha_is_alnum(t[0]); }
+    else if v.script is Some && i == 1 { assert(t[1] == v.script->0); lemma_alpha_is_alnum(t[1]); }
+    else if v.region is Some && i == 1 + ns { assert(t[i] == v.region->0); lemma_alpha_is_alnum(t[i]); }
+    else { assert(t[i] == v.variants[i - 1 - ns - nr]); assert(is_variant_st(t[i])); }
+}
+pub proof fn lemma_e_toks_alnum(tv: TView, kt: Seq<tinystr::TinyAsciiStr<4>>, uv: UView, ku: Seq<tinystr::TinyAsciiStr<4>>, xv: Seq<Seq<u8>>, i: int)
+    requires t_view_ok(tv), is_sorted_keys(kt, tv.fields), u_wf(uv), is_sorted_keys(ku, uv.kw), x_view_wf(xv), 0 <= i < e_toks(tv, kt, uv, ku, xv).len(),
+    ensures all_alnum(e_toks(tv, kt, uv, ku, xv)[i]), e_toks(tv, kt, uv, ku, xv)[0].len() == 1,
+{
+    lemma_keys_ok_from_wf(kt, tv.fields, false);
+    lemma_keys_ok_from_wf(ku, uv.kw, true);
+    let tt = t_toks(tv, kt); let ut = u_toks(uv, ku); let xt = x_toks(xv);
+    let e = e_toks(tv, kt, uv, ku, xv);
+    assert(alnum(0x74u8) && alnum(0x75u8) && alnum(0x78u8));
+    assert(e[0].len() == 1) by {
+        if tt.len() > 0 { assert(e[0] == tok_t()); } else if ut.len() > 0 { assert(e[0] == tok_u()); } else { assert(e[0] == tok_x()); }
+    }
+    let x = e[i];
+    if i < tt.len() {
+        assert(x == tt[i]);
+        if i == 0 { assert(x == tok_t()); assert forall|j: int| 0 <= j < x.len() implies alnum(#[trigger] x[j]) by {} }
+        else {
+            let lt = if tv.has_lang { lid_toks(tv.lang) } else { Seq::<Seq<u8>>::empty() };
+            let j = i - 1;
+            assert(x == t_body(tv, kt)[j]);
+            if j < lt.len() { assert(x == lt[j]); lemma_lid_toks_alnum(tv.lang, j); }
+            else { assert(x == kv_toks(kt, tv.fields)[j - lt.len()]); lemma_kv_toks_alnum(kt, tv.fields, false, j - lt.len()); }
+        }
+    } else if i < tt.len() + ut.len() {
+        let i2 = i - tt.len();
+        assert(x == ut[i2]);
+        if i2 == 0 { assert(x == tok_u()); assert forall|j: int| 0 <= j < x.len() implies alnum(#[trigger] x[j]) by {} }
+        else {
+            let j = i2 - 1;
+            assert(x == u_body(uv, ku)[j]);
+            if j < uv.attrs.len() { assert(x == uv.attrs[j]); assert(is_utype(x)); }
+            else { assert(x == kv_toks(ku, uv.kw)[j - uv.attrs.len()]); lemma_kv_toks_alnum(ku, uv.kw, true, j - uv.attrs.len()); }
+        }
+    } else {
+        let i3 = i - tt.len() - ut.len();
+        assert(x == xt[i3]);
+        if i3 == 0 { assert(x == tok_x()); assert forall|j: int| 0 <= j < x.len() implies alnum(#[trigger] x[j]) by {} }
+        else { assert(x == xv[i3 - 1]); assert(is_private(x)); }
+    }
+}
+
+/// L-RT for a whole locale: the canonical string lid_ser(id) + (t_ser + u_ser + x_ser) splits into id's subtags followed by
+/// e_toks; the language-identifier production consumes exactly id's subtags and prescribes id's view; the recogniser accepts
+/// the rest and prescribes the three extension views
+pub proof fn lemma_locale_roundtrip_views(idv: LidView, tv: TView, uv: UView, xv: Seq<Seq<u8>>)
+    requires
+        lid_view_ok(idv), t_view_ok(tv), u_wf(uv), x_view_wf(xv),
+        is_sorted_keys(sorted_keys(tv.fields), tv.fields), is_sorted_keys(sorted_keys(uv.kw), uv.kw),
+    ensures ({
+        let kt = sorted_keys(tv.fields); let ku = sorted_keys(uv.kw);
+        let ts = subtags_of(lid_ser(idv) + (t_ser(tv) + u_ser(uv) + x_ser(xv)));
+        let e = e_toks(tv, kt, uv, ku, xv);
+        &&& ts == lid_toks(idv) + e
+        &&& is_language(ts[0])
+        &&& lid_end(ts) == lid_toks(idv).len()
+        &&& lid_expected(ts, idv)
+        &&& ts.skip(lid_end(ts)) == e
+        &&& ext_parse(e, ev0()) == ERes::Ok(EView {
+                t: if tv_empty(tv) { None } else { Some(t_body(tv, kt) + (u_toks(uv, ku) + x_toks(xv))) },
+                u: if uv_empty(uv) { None } else { Some(u_body(uv, ku) + x_toks(xv)) },
+                x: if xv.len() == 0 { None } else { Some(xv) } })
+        &&& (!tv_empty(tv) ==> t_expected(t_body(tv, kt) + (u_toks(uv, ku) + x_toks(xv)), tv))
+        &&& (!uv_empty(uv) ==> u_expected(u_body(uv, ku) + x_toks(xv), 0, u_end(u_body(uv, ku) + x_toks(xv), 0), uv))
+        &&& x_expected(xv, xv)
+    }),
+{
+    let kt = sorted_keys(tv.fields); let ku = sorted_keys(uv.kw);
+    let e = e_toks(tv, kt, uv, ku, xv);
+    let h = lang_text(idv.lang);
+    let rid = opt_seq(idv.script) + opt_seq(idv.region) + idv.variants;
+    lemma_e_ser_join(tv, uv, xv);
+    lemma_lid_ser_is_join(idv);
+    lemma_dash_join_concat(rid, e);
+    let s = lid_ser(idv) + (t_ser(tv) + u_ser(uv) + x_ser(xv));
+    assert(s =~= h + dash_join(rid + e));
+    // no token contains a separator
+    lemma_und_props();
+    lemma_alpha_is_alnum(h);
+    lemma_alnum_no_sep(h);
+    assert(lid_toks(idv) =~= seq![h] + rid);
+    assert forall|i: int| 0 <= i < (rid + e).len() implies no_sep(#[trigger] (rid + e)[i]) by {
+        if i < rid.len() { assert((rid + e)[i] == lid_toks(idv)[i + 1]); lemma_lid_toks_alnum(idv, i + 1); lemma_alnum_no_sep((rid + e)[i]); }
+        else { assert((rid + e)[i] == e[i - rid.len()]); lemma_e_toks_alnum(tv, kt, uv, ku, xv, i - rid.len()); lemma_alnum_no_sep((rid + e)[i]); }
+    }
+    lemma_split_head_join(h, rid + e);
+    let ts = subtags_of(s);
+    assert(ts =~= lid_toks(idv) + e);
+    if e.len() > 0 { lemma_e_toks_alnum(tv, kt, uv, ku, xv, 0); lemma_tkey_is_stopper(e[0]); }
+    lemma_lid_roundtrip_suffix(idv, e);
+    assert(ts.skip(lid_end(ts)) =~= e);
+    lemma_ext_roundtrip(tv, kt, uv, ku, xv);
+}
